@@ -313,7 +313,7 @@ impl Prop for C18 {
     }
     fn budget(&self, tier: Tier) -> u64 {
         match tier {
-            Tier::Quick => 2_000_000,
+            Tier::Quick => 4_000_000,
             Tier::Thorough => 64_000_000,
         }
     }
